@@ -82,7 +82,14 @@ class Thread(threading.Thread):
 
             tb = ''.join(traceback.format_exception(type(e), e, e.__traceback__))
             tb = f'[{threading.current_thread().name}] ' + tb
-            e.__cause__ = type(e)(tb)
+            try:
+                e.__cause__ = type(e)(tb)
+            except Exception:
+                # The exception class can not be constructed from a single str,
+                # e.g. its `__init__` has other required parameters.
+                # The traceback text must still be attached, and, above all,
+                # the future must still be resolved below.
+                e.__cause__ = RuntimeError(tb)
             e.__traceback__ = None
 
             self._future_.set_exception(e)
